@@ -262,6 +262,42 @@ func c19Worker(c *core.Collector, x *Ctx) {
 			c.Sample(map[string]any{"phone": phone, "announced_names": nm})
 		}
 	})
+	// large files with hostile names (batch 0): a handler that treats big files specially (saves them early, streams them to
+	// disk) has a second place where a path is built. 32 MiB + 4 KiB and 48 MiB, 64 KiB chunks, uploaded completely.
+	if x.Batch == 0 {
+		for bi, bn := range []string{"../big_escape.bin", "a/../../big_escape2.bin"} {
+			size := []int{32<<20 + 4096, 48 << 20}[bi]
+			bcd := []byte{0x01, 0x39, 0x90, 0x00, 0x00, byte(0x10 + bi)}
+			phone := ref.PhoneString(bcd)
+			token := append([]byte(fmt.Sprintf("TOKEN-BIG-%d-%d-xxxxxx", x.Batch, bi)), make([]byte, size-24)...)
+			token = token[:size]
+			f := att.File{Name: []byte(bn), Size: uint32(size), Content: token}
+			var writes [][]byte
+			serial := uint16(1)
+			ctrl := func(id uint16, body []byte) {
+				writes = append(writes, ref.Build(ref.Params{ID: id, BCD: bcd, Serial: serial, Body: body}))
+				serial++
+			}
+			ctrl(0x1210, att.Body1210(consts.ActiveSafetyJS, []byte("T1"), []byte("alarm"), []att.File{f}))
+			ctrl(0x1211, att.Body1211(f, 0))
+			for off := 0; off < size; off += 65536 {
+				l := min(65536, size-off)
+				writes = append(writes, append(att.ChunkHeader(consts.ActiveSafetyJS, f.Name, uint32(off), uint32(l)), token[off:off+l]...))
+			}
+			ctrl(0x1212, att.Body1211(f, 0))
+			var started atomic.Int64
+			res := att.RunTCP(addr, writes, &started, 3)
+			if res.TimedOut {
+				c.Inconclusive()
+			}
+			c.Eval()
+			c.Count("sessions", 1)
+			c.Count("files_larger_than_32_MiB_with_hostile_names", 1)
+			mu.Lock()
+			all = append(all, sess{phone: phone, names: [][]byte{[]byte(bn)}, tokens: [][]byte{token[:40]}})
+			mu.Unlock()
+		}
+	}
 	// the save happens when the server notices the close, in the connection's own goroutine: wait until no goroutine of the
 	// attachment server's per-connection loop is left (decided by state, not by a time budget; 120 s watchdog => inconclusive),
 	// then until two snapshots in a row agree
